@@ -297,6 +297,20 @@ func (a *txnAnalysis) applyCall(call *ast.CallExpr, s txnS) []callOutcome {
 					return []callOutcome{{a.applySummary(callee, call, s), triUnknown}}
 				}
 				if a.eff.recvMut[callee] {
+					// a helper that only writes receiver fields outside the abstract state (a cache) does not mutate it
+					if a.exemptFl != nil && loc == nil {
+						if fw := a.eff.recvFieldWrites(callee); fw != nil {
+							all := true
+							for fld := range fw {
+								if !a.exemptFl(fld) {
+									all = false
+								}
+							}
+							if all {
+								return []callOutcome{{s, triUnknown}}
+							}
+						}
+					}
 					if _, cptr := csig.Recv().Type().(*types.Pointer); cptr && isAbs {
 						return []callOutcome{{a.mutate(s, call.Pos(), a.isTokens(loc)), triUnknown}}
 					}
